@@ -350,21 +350,36 @@ func c17captured(p *core.Prog, res *core.Result, fi *core.FuncInfo, rule string)
 	}
 	var lits []*ast.FuncLit
 	multi := map[*ast.FuncLit]bool{}
+	// spans of the loops in which goroutines are started: body code inside such a loop runs
+	// again after the goroutines of earlier iterations have started
+	type span struct{ lo, hi token.Pos }
+	var goLoops []span
+	var loopStack []span
 	var find func(n ast.Node, inLoop bool)
 	find = func(n ast.Node, inLoop bool) {
 		ast.Inspect(n, func(x ast.Node) bool {
 			switch s := x.(type) {
 			case *ast.ForStmt:
+				loopStack = append(loopStack, span{s.Pos(), s.End()})
 				find(s.Body, true)
+				loopStack = loopStack[:len(loopStack)-1]
 				return false
 			case *ast.RangeStmt:
+				loopStack = append(loopStack, span{s.Pos(), s.End()})
 				find(s.Body, true)
+				loopStack = loopStack[:len(loopStack)-1]
 				return false
 			case *ast.GoStmt:
 				if l, ok := s.Call.Fun.(*ast.FuncLit); ok {
 					lits = append(lits, l)
 					multi[l] = inLoop
+					if inLoop && len(loopStack) > 0 {
+						goLoops = append(goLoops, loopStack...)
+					}
+					saved := loopStack
+					loopStack = nil
 					find(l.Body, false)
+					loopStack = saved
 					return false
 				}
 			case *ast.CallExpr:
@@ -372,7 +387,13 @@ func c17captured(p *core.Prog, res *core.Result, fi *core.FuncInfo, rule string)
 					if l, ok := s.Args[0].(*ast.FuncLit); ok {
 						lits = append(lits, l)
 						multi[l] = inLoop
+						if inLoop && len(loopStack) > 0 {
+							goLoops = append(goLoops, loopStack...)
+						}
+						saved := loopStack
+						loopStack = nil
 						find(l.Body, false)
+						loopStack = saved
 						return false
 					}
 				}
@@ -544,12 +565,9 @@ func c17captured(p *core.Prog, res *core.Result, fi *core.FuncInfo, rule string)
 		if declProc == useProc && declProc != 0 {
 			return true // goroutine-local
 		}
-		// channels, mutexes, wait groups and contexts synchronise themselves
-		switch t := types.Unalias(o.Type()).(type) {
-		case *types.Chan:
-			_ = t
-			return true
-		}
+		// mutexes, wait groups and contexts synchronise themselves; so does a channel value, but
+		// not the variable that holds it: a channel variable that is assigned again while a
+		// goroutine reads it is an ordinary shared variable (handled below)
 		ts := o.Type().String()
 		if strings.Contains(ts, "sync.") || strings.Contains(ts, "context.Context") || strings.Contains(ts, "errgroup.Group") {
 			return true
@@ -578,11 +596,30 @@ func c17captured(p *core.Prog, res *core.Result, fi *core.FuncInfo, rule string)
 		if !inGoroutine {
 			continue
 		}
+		inGoLoop := func(pos token.Pos) bool {
+			for _, sp := range goLoops {
+				if pos >= sp.lo && pos < sp.hi {
+					return true
+				}
+			}
+			return false
+		}
+		if _, isChan := types.Unalias(o.Type()).Underlying().(*types.Chan); isChan {
+			reassigned := false
+			for _, a := range as {
+				if a.write && (a.pos > firstGo || inGoLoop(a.pos)) {
+					reassigned = true
+				}
+			}
+			if !reassigned {
+				continue // the channel variable is fixed before the goroutines start
+			}
+		}
 		// keep the accesses that can run concurrently with a goroutine access
 		var live []acc
 		for _, a := range as {
-			if a.proc == 0 && (a.pos < firstGo || (joinPos != token.NoPos && a.pos > joinPos)) {
-				continue // before the first go statement / after the join
+			if a.proc == 0 && (a.pos < firstGo && !inGoLoop(a.pos) || (joinPos != token.NoPos && a.pos > joinPos)) {
+				continue // before the first go statement (and not in a loop that starts goroutines) / after the join
 			}
 			live = append(live, a)
 		}
